@@ -1075,6 +1075,12 @@ func (x *Exec) lineHooks(fr *Frame, st *State, ins ssa.Instruction) {
 			x.oblige(st, "assert", "line:"+cl.Label, t, cl.Tags, pos)
 			continue
 		}
+		if cl.Kind == "assume" {
+			// an assumption stated inside the function (listed in the evidence)
+			st.assume(ev.boolExpr(cl.Expr))
+			x.usedTypeInv["assumed at line \""+cl.AtLine+"\": "+cl.Src] = true
+			continue
+		}
 		st.quiet++
 		v := ev.eval(cl.Expr)
 		st.quiet--
